@@ -70,6 +70,10 @@ def _write_numeric_operands(
         value = operand.result
         other_value = TypeQualifier.decay(other.result)
 
+        if isinstance(value, Integer):
+            # constants of the type cohdl.Integer are written like python integers
+            value = value.get_value()
+
         if (
             isinstance(value, int)
             and not isinstance(value, bool)
